@@ -11,6 +11,7 @@
 -/
 import GilVerif.Basic.Geom
 import GilVerif.Gen.C01
+import GilVerif.Model.C02
 
 namespace GilVerif.Model.C01
 open GilVerif.Geom GilVerif.Gen.C01
@@ -43,14 +44,17 @@ def imageView (o : Org) (w h a m : Int) : View :=
 /-- byte intervals `(start, length)` relative to the allocation start touched by reading or writing
     the pixel whose memory-unit address (relative to the allocation start; planar: in plane 0) is `p`:
     interleaved / packed: the pixel's bytes; planar: the channel's bytes in every plane (plane k
-    starts `k * row * h` units further); bit-aligned: for every channel the bytes its
+    starts `planeOff k` units after plane 0); bit-aligned: for every channel the bytes its
     `packed_dynamic_channel_reference` copies, starting at the byte of the pixel's first bit -/
-def footprint (o : Org) (planeUnits : Int) (p : Int) : List (Int × Int) :=
+def footprintF (o : Org) (planeOff : Int → Int) (p : Int) : List (Int × Int) :=
   if o.b2m = 8 then
     o.chans.map fun (co, cw) => (p / 8, chan_data_size (p % 8 + co) cw o.fieldBytes)
   else if o.planar then
-    (List.range o.nch.toNat).map fun (k : Nat) => (p + (k : Int) * planeUnits, o.mstep)
+    (List.range o.nch.toNat).map fun (k : Nat) => (p + planeOff (k : Int), o.mstep)
   else [(p, o.mstep)]
+
+/-- the same with equidistant planes (plane k starts `k * planeUnits` units after plane 0) -/
+def footprint (o : Org) (planeUnits : Int) (p : Int) : List (Int × Int) := footprintF o (fun k => k * planeUnits) p
 
 /-- all intervals lie inside `[0, n)` -/
 def within (n : Int) (iv : List (Int × Int)) : Prop := ∀ q ∈ iv, 0 ≤ q.1 ∧ q.1 + q.2 ≤ n
@@ -59,5 +63,141 @@ instance (n : Int) (iv : List (Int × Int)) : Decidable (within n iv) := by unfo
 
 /-- what bit-aligned channel access copied before c04bc05: always `sizeof(BitField)` bytes -/
 def footprintOld (o : Org) (p : Int) : List (Int × Int) := o.chans.map fun _ => (p / 8, o.fieldBytes)
+
+/-! ### placement by `allocate_` / `create_view`, and `recreate`
+
+The bodies of `allocate_` and `create_view` (both `IsPlanar` variants) and of the four `recreate`
+overloads are *generated* (Gen/C01.lean): where the first pixel goes (`tmp`), the row size handed to
+the locator, the offset of plane `i`, the dimensions of `_view`, the bytes requested, and which
+branch `recreate` takes.  Here they are composed into an image state. -/
+
+/-- 2^63: `std::ptrdiff_t` holds values below this -/
+def PZ : Int := 9223372036854775808
+
+/-- the organisations the library provides: byte-addressed (interleaved / packed / planar) or
+    bit-aligned with channels inside the pixel -/
+def Org.WF (o : Org) : Prop :=
+  0 < o.mstep ∧ 0 ≤ o.nch ∧
+  (o.b2m = 1 ∨ (o.b2m = 8 ∧ o.planar = false ∧ (∀ c ∈ o.chans, 0 ≤ c.1 ∧ 0 < c.2 ∧ c.1 + c.2 ≤ o.mstep) ∧ o.mstep < 4294967000))
+
+/-- no `std::size_t` / `std::ptrdiff_t` overflow in the size arithmetic for a `w x h` image with
+    alignment `a` whose storage is at address `m` -/
+def NoOvf (o : Org) (w h a m : Int) : Prop :=
+  0 ≤ w ∧ 0 ≤ h ∧ 0 ≤ a ∧ 0 ≤ m ∧ w * o.mstep + a * o.b2m + m < PZ
+  ∧ rowUnits o w a * h + h + o.b2m + a < PZ
+  ∧ (o.planar = true → rowUnits o w a * h * o.nch + rowUnits o w a * h + h + 1 + a < PZ)
+
+instance (o : Org) : Decidable o.WF := by unfold Org.WF; exact inferInstance
+instance (o : Org) (w h a m : Int) : Decidable (NoOvf o w h a m) := by unfold NoOvf; exact inferInstance
+
+/-- what `allocate_` / `create_view` leave behind -/
+structure Placed where
+  allocated : Int     -- _allocated_bytes
+  mem : Int           -- _memory
+  tmp : Int           -- address of the first pixel (plane 0)
+  row : Int           -- row size handed to the locator
+  vw : Int            -- _view.width()
+  vh : Int            -- _view.height()
+  deriving Repr, DecidableEq, Inhabited
+
+/-- state of an `image`: `_memory` (address; 0 = nullptr), `_allocated_bytes`, `_align_in_bytes`,
+    `_view` (memory units relative to `_memory`) and, for planar images, the offset of plane k from plane 0 -/
+structure Img where
+  mem : Int
+  allocated : Int
+  a : Int
+  view : View
+  plane : Int → Int
+
+/-- an image before `allocate_`: no storage, default-constructed view -/
+def Img.empty (o : Org) (a : Int) : Img := { mem := 0, allocated := 0, a := a, view := ⟨0, o.mstep, 0, 0, 0⟩, plane := fun _ => 0 }
+
+/-- the generated `create_view` body evaluated on the storage at `mem` (plane index `i`) -/
+def createViewK (o : Org) (mem w h a i : Int) : Placed × Int :=
+  if o.planar then
+    let r := create_view_planar w h o.mstep o.b2m a o.nch mem i 0 0 0 0 0
+    (⟨0, mem, r.1, r.2.2.1, r.2.2.2.1, r.2.2.2.2⟩, r.2.1)
+  else
+    let r := create_view_interleaved w h o.mstep o.b2m a o.nch mem 0 0 0 0
+    (⟨0, mem, r.1, r.2.1, r.2.2.1, r.2.2.2⟩, 0)
+
+/-- the generated `allocate_` body; `addr n` is what the allocator returns for a request of `n` bytes -/
+def allocateK (o : Org) (addr : Int → Int) (w h a i : Int) : Placed × Int :=
+  if o.planar then
+    let n := (allocate_planar w h o.mstep o.b2m a o.nch 0 0 0 i 0 0 0 0 0).1
+    let r := allocate_planar w h o.mstep o.b2m a o.nch 0 (addr n) 0 i 0 0 0 0 0
+    (⟨r.1, r.2.1, r.2.2.1, r.2.2.2.2.1, r.2.2.2.2.2.1, r.2.2.2.2.2.2⟩, r.2.2.2.1)
+  else
+    let n := (allocate_interleaved w h o.mstep o.b2m a o.nch 0 0 0 0 0 0 0).1
+    let r := allocate_interleaved w h o.mstep o.b2m a o.nch 0 (addr n) 0 0 0 0 0
+    (⟨r.1, r.2.1, r.2.2.1, r.2.2.2.1, r.2.2.2.2.1, r.2.2.2.2.2⟩, 0)
+
+/-- `_view = view_t(dims, locator(x_iterator(tmp), row))`, relative to `_memory` -/
+def Placed.view (o : Org) (p : Placed) : View :=
+  { base := (p.tmp - p.mem) * o.b2m, xs := o.mstep, ys := p.row, w := p.vw, h := p.vh }
+
+/-- `image(w, h, alignment)`: `allocate_` on an empty image -/
+def allocate (o : Org) (addr : Int → Int) (w h a : Int) : Img :=
+  let p := (allocateK o addr w h a 0).1
+  { mem := p.mem, allocated := p.allocated, a := a, view := p.view o, plane := fun k => (allocateK o addr w h a k).2 }
+
+inductive Overload where
+  | dims | dimsFill | dimsAlloc | dimsFillAlloc
+  deriving Repr, DecidableEq, Inhabited
+
+/-- the generated body of the chosen `recreate` overload: (new `_align_in_bytes`, branch) -/
+def recreateK (o : Org) (ov : Overload) (s : Img) (w h a : Int) (allocEq : Bool) : Int × Int :=
+  let e : Int := if allocEq then 1 else 0
+  match o.planar, ov with
+  | false, .dims => recreate_dims_interleaved w h a s.view.w s.view.h o.mstep o.b2m s.a o.nch s.allocated e 0
+  | false, .dimsFill => recreate_dims_fill_interleaved w h a s.view.w s.view.h o.mstep o.b2m s.a o.nch s.allocated e 0
+  | false, .dimsAlloc => recreate_dims_alloc_interleaved w h a s.view.w s.view.h o.mstep o.b2m s.a o.nch s.allocated e 0
+  | false, .dimsFillAlloc => recreate_dims_fill_alloc_interleaved w h a s.view.w s.view.h o.mstep o.b2m s.a o.nch s.allocated e 0
+  | true, .dims => recreate_dims_planar w h a s.view.w s.view.h o.mstep o.b2m s.a o.nch s.allocated e 0
+  | true, .dimsFill => recreate_dims_fill_planar w h a s.view.w s.view.h o.mstep o.b2m s.a o.nch s.allocated e 0
+  | true, .dimsAlloc => recreate_dims_alloc_planar w h a s.view.w s.view.h o.mstep o.b2m s.a o.nch s.allocated e 0
+  | true, .dimsFillAlloc => recreate_dims_fill_alloc_planar w h a s.view.w s.view.h o.mstep o.b2m s.a o.nch s.allocated e 0
+
+structure Call where
+  ov : Overload
+  w : Int
+  h : Int
+  a : Int
+  allocEq : Bool := true     -- `alloc_in == _alloc` (overloads taking an allocator)
+  deriving Repr, DecidableEq, Inhabited
+
+/-- `img.recreate(w, h, a)`: branch 0 leaves the image alone, branch 1 lays a new view over the old
+    storage (`create_view`), branch 2 replaces the image by a new one (`fresh`, the old storage is released) -/
+def recreate (o : Org) (fresh : Call → Img) (s : Img) (c : Call) : Img :=
+  let r := recreateK o c.ov s c.w c.h c.a c.allocEq
+  if r.2 = 0 then s
+  else if r.2 = 1 then
+    { s with a := r.1, view := (createViewK o s.mem c.w c.h r.1 0).1.view o, plane := fun k => (createViewK o s.mem c.w c.h r.1 k).2 }
+  else fresh c
+
+def recreateAll (o : Org) (fresh : Call → Img) (s : Img) (cs : List Call) : Img := cs.foldl (recreate o fresh) s
+
+/-- every call of the list keeps the storage (branch 0 or 1) and its size arithmetic does not overflow -/
+def ReuseOK (o : Org) (fresh : Call → Img) : Img → List Call → Prop
+  | _, [] => True
+  | s, c :: cs => NoOvf o c.w c.h c.a s.mem ∧ (recreateK o c.ov s c.w c.h c.a c.allocEq).2 ≠ 2 ∧ ReuseOK o fresh (recreate o fresh s c) cs
+
+def decReuseOK (o : Org) (fresh : Call → Img) : (s : Img) → (cs : List Call) → Decidable (ReuseOK o fresh s cs)
+  | _, [] => isTrue trivial
+  | s, c :: cs =>
+    match (inferInstance : Decidable (NoOvf o c.w c.h c.a s.mem)),
+          (inferInstance : Decidable ((recreateK o c.ov s c.w c.h c.a c.allocEq).2 ≠ 2)), decReuseOK o fresh (recreate o fresh s c) cs with
+    | isTrue h1, isTrue h2, isTrue h3 => isTrue ⟨h1, h2, h3⟩
+    | isFalse h1, _, _ => isFalse (fun h => h1 h.1)
+    | _, isFalse h2, _ => isFalse (fun h => h2 h.2.1)
+    | _, _, isFalse h3 => isFalse (fun h => h3 h.2.2)
+
+instance (o : Org) (fresh : Call → Img) (s : Img) (cs : List Call) : Decidable (ReuseOK o fresh s cs) := decReuseOK o fresh s cs
+
+/-- **Spec**: every in-range pixel of every view derived from the image's view by a valid list of
+    transformations touches only bytes inside `[0, _allocated_bytes)` of the image's storage -/
+def Img.InBounds (o : Org) (s : Img) : Prop :=
+  ∀ (ts : List Xform) (x y : Int), validAll ts s.view → (GilVerif.Model.C02.applyMemAll ts s.view).InRange x y →
+    within s.allocated (footprintF o s.plane ((GilVerif.Model.C02.applyMemAll ts s.view).addr x y))
 
 end GilVerif.Model.C01
